@@ -44,6 +44,22 @@ def scapy_from_spec(spec):
     return cls(hdr + raw)
 
 
+def scapy_reused_seq(spec, warm):
+    """As scapy_reused_window, for the sequence number (zero / non-zero is the `seq-` quirk)."""
+    s = wire.full(spec)
+    if spec.get("link"):
+        return scapy_from_spec(spec)
+    obj = scapy_from_spec(dict(spec, seq=0 if s["seq"] else 12345))
+    try:
+        warm(obj)
+    except Exception:
+        pass
+    if obj.getlayer("TCP") is None:          # e.g. a non-first fragment: nothing to update
+        return scapy_from_spec(spec)
+    obj.getlayer("TCP").seq = s["seq"]
+    return obj
+
+
 def scapy_reused_window(spec, warm):
     """As scapy_reused, for the TCP window: the object was built and used with another window, then `tcp.window` was assigned.  Only for option
     areas Scapy re-serialises byte for byte once a field of the TCP layer has been set (callers check c16.simple_opts) and no link framing."""
@@ -55,6 +71,8 @@ def scapy_reused_window(spec, warm):
         warm(obj)
     except Exception:
         pass
+    if obj.getlayer("TCP") is None:
+        return scapy_from_spec(spec)
     obj.getlayer("TCP").window = s["win"]
     return obj
 
